@@ -143,6 +143,9 @@ Ref0(t, n, sc, ha) == Ref1(t, n, sc, ha, IF ha THEN sc + 3 ELSE sc + 1,
 RefS(t, n, sc) == Ref0(t, n, sc, sc + 2 <= n /\ t[sc + 1] = SLASH /\ t[sc + 2] = SLASH)
 RefT(t) == RefS(t, Len(t), IF HasScheme(t) THEN SchemeRun(t, 2) ELSE 0)
 Ref(str) == RefT(Prefixed(str))
+\* the part of the reading the agreement clause is about: what a conforming parser sees as
+\* (userinfo, host, port) - "bad" when the authority admits no conforming reading
+RefAuthority(str) == [kind |-> Ref(str).kind, userinfo |-> Ref(str).userinfo, host |-> Ref(str).host, port |-> Ref(str).port]
 
 IsHttp(R) == R.scheme # NONE /\ Lower(R.scheme) \in {HTTP, HTTPS}
 Bracketed(h) == h # <<>> /\ h[1] = LBR
@@ -299,6 +302,24 @@ RD3(p, o2) == JoinFrom(IF EndsWith(p, <<SLASH, DOT>>) \/ EndsWith(p, <<SLASH, DO
 RD2(p, o1) == RD3(p, IF p # <<>> /\ p[1] = SLASH /\ (o1 = <<>> \/ o1[1] # <<>>) THEN <<<<>>>> \o o1 ELSE o1)
 ModelRemoveDots(p) == RD2(p, RDFold(SplitFrom(p, 1), 1, <<>>))
 
+\* RFC 3986 5.2.4 remove_dot_segments, transcribed literally (input buffer / output buffer); stage 1
+\* checks that the implementation-shaped fold above computes the same on every absolute path
+DropLastSeg(out) == SubSeq(out, 1, LastIn(out, 1, Len(out), {SLASH}) - 1)
+Drop(t, k) == SubSeq(t, k + 1, Len(t))
+RECURSIVE RFCDots(_, _)
+RFCMove(in, out, e) == RFCDots(Drop(in, e), out \o SubSeq(in, 1, e))      \* e: end of the first segment
+RFCDots(in, out) ==
+    IF in = <<>> THEN out
+    ELSE IF StartsWith(in, <<DOT, DOT, SLASH>>) THEN RFCDots(Drop(in, 3), out)
+    ELSE IF StartsWith(in, <<DOT, SLASH>>) THEN RFCDots(Drop(in, 2), out)
+    ELSE IF StartsWith(in, <<SLASH, DOT, SLASH>>) THEN RFCDots(Drop(in, 2), out)
+    ELSE IF in = <<SLASH, DOT>> THEN RFCDots(<<SLASH>>, out)
+    ELSE IF StartsWith(in, <<SLASH, DOT, DOT, SLASH>>) THEN RFCDots(Drop(in, 3), DropLastSeg(out))
+    ELSE IF in = <<SLASH, DOT, DOT>> THEN RFCDots(<<SLASH>>, DropLastSeg(out))
+    ELSE IF in \in {<<DOT>>, <<DOT, DOT>>} THEN RFCDots(<<>>, out)
+    ELSE RFCMove(in, out, FirstIn(in, 2, Len(in), {SLASH}) - 1)
+RFCRemoveDots(p) == RFCDots(p, <<>>)
+
 ModelCmp(x, kind, norm) == IF x = NONE THEN NONE ELSE IF norm /\ x # <<>> THEN ModelEnc(x, kind) ELSE x
 ModelPath(p0, R) == IF p0 = <<>> THEN (IF R.query # NONE \/ R.fragment # NONE THEN <<>> ELSE NONE)
                     ELSE IF p0[1] # SLASH THEN <<SLASH>> \o p0 ELSE p0
@@ -332,6 +353,180 @@ UrlText(u) == (IF u.scheme = NONE THEN <<>> ELSE u.scheme \o <<COLON, SLASH, SLA
 ModelEvent2(str, m, m2) == [s |-> str, k |-> "url", u |-> m.u, k2 |-> m2.k, u2 |-> IF m2.k = "url" THEN m2.u ELSE m.u]
 ModelEvent1(str, m) == IF m.k # "url" THEN [s |-> str, k |-> "lpe"] ELSE ModelEvent2(str, m, ModelParse(UrlText(m.u)))
 ModelEvent(str) == ModelEvent1(str, ModelParse(str))
+
+-----------------------------------------------------------------------------
+(* Property C15: what goes on the wire is exactly what the URL says.                           *)
+(*                                                                                              *)
+(* Everything here is derived from the independent reading R = Ref(str) of the caller's URL -   *)
+(* never from urllib3's own parse.  Four derivations leave the URL along four code paths:       *)
+(*   dial address   (pool key -> pool.host -> conn._dns_host -> create_connection)             *)
+(*   Host header    (http.client putrequest / ProxyManager._set_proxy_headers)                  *)
+(*   TLS server name (HTTPSConnection.connect -> _ssl_wrap_socket_and_match_hostname)           *)
+(*   request target (Url.request_uri / Url.url for a forwarding proxy)                          *)
+(* WireOf(R, px, P) is the canonical expectation; WireClauses is the total monitor (RULES) of   *)
+(* observed request, with the latitude of DESIGN 4/C15 (zone id / trailing dot present or       *)
+(* stripped in the Host header; explicit port 0).                                               *)
+(* px: "none" | "proxy";  an http proxy forwards http URLs (absolute-form) and tunnels https    *)
+(* URLs (CONNECT host:port, then TLS to the origin inside the tunnel).                          *)
+
+DefaultPort(sc) == IF sc = HTTPS THEN 443 ELSE 80
+Mode(sc, px) == IF px = "none" THEN "direct" ELSE IF sc = HTTPS THEN "tunnel" ELSE "forward"
+
+\* IDNA is an opaque table (lower-cased U-label -> A-label); unknown non-ASCII labels are opaque
+IdnaTable == { << <<98, 252, 99, 104, 101, 114>>,                                   \* buecher with u-umlaut
+                  <<120, 110, 45, 45, 98, 99, 104, 101, 114, 45, 107, 118, 97>> >>,  \* xn--bcher-kva
+               << <<20363, 12360>>, <<120, 110, 45, 45, 114, 56, 106, 122, 52, 53, 103>> >> }   \* xn--r8jz45g
+IdnaLabel(l) == IF ~NonAscii(l) THEN Lower(l)
+                ELSE IF \E p \in IdnaTable : p[1] = Lower(l) THEN (CHOOSE p \in IdnaTable : p[1] = Lower(l))[2]
+                ELSE NONE
+RECURSIVE LabelsFrom(_, _)
+LabelsAt(h, i, j) == IF j > Len(h) THEN <<SubSeq(h, i, Len(h))>> ELSE <<SubSeq(h, i, j - 1)>> \o LabelsFrom(h, j + 1)
+LabelsFrom(h, i) == LabelsAt(h, i, FirstIn(h, i, Len(h), {DOT}))
+RECURSIVE JoinDots(_, _)
+JoinDots(ls, i) == IF i > Len(ls) THEN <<>> ELSE IF i = Len(ls) THEN ls[i] ELSE ls[i] \o <<DOT>> \o JoinDots(ls, i + 1)
+IdnaHost2(ls) == IF \E i \in 1..Len(ls) : ls[i] = NONE THEN NONE ELSE JoinDots(ls, 1)
+IdnaHost(h) == IF ~NonAscii(h) THEN Lower(h)
+               ELSE IdnaHost2([i \in 1..Len(LabelsFrom(h, 1)) |-> IdnaLabel(LabelsFrom(h, 1)[i])])
+
+\* IP-literal with a zone: "[addr%25zone]" (RFC 6874) or "[addr%zone]"  ->  "[addr%zone]", address lower-cased
+NormZone2(h, z, rest) == Lower(SubSeq(h, 1, z - 1)) \o <<PCT>>
+                         \o (IF Len(rest) > 3 /\ rest[1] = 50 /\ rest[2] = 53 THEN SubSeq(rest, 3, Len(rest)) ELSE rest)
+NormZone(h, z) == NormZone2(h, z, SubSeq(h, z + 1, Len(h)))
+\* the host as every derivation must understand it (NONE: opaque IDNA)
+WireHost(h) == IF Bracketed(h) THEN (IF HasAny(h, {PCT}) THEN NormZone(h, FirstIn(h, 1, Len(h), {PCT})) ELSE Lower(h))
+               ELSE IdnaHost(h)
+Unbracket(h) == IF Bracketed(h) /\ h[Len(h)] = RBR THEN SubSeq(h, 2, Len(h) - 1) ELSE h
+\* without the zone id (bracketed or not)
+StripZone(h) == IF ~HasAny(h, {PCT}) \/ ~HasAny(h, {COLON}) THEN h
+                ELSE SubSeq(h, 1, FirstIn(h, 1, Len(h), {PCT}) - 1) \o (IF h[Len(h)] = RBR THEN <<RBR>> ELSE <<>>)
+RECURSIVE StripDots(_)
+StripDots(h) == IF h # <<>> /\ h[Len(h)] = DOT THEN StripDots(SubSeq(h, 1, Len(h) - 1)) ELSE h
+\* "that host without brackets, zone id or trailing dot"
+BareHost(h) == StripDots(StripZone(Unbracket(h)))
+\* latitude: the zone id / the trailing dot may be present or stripped where the host is *named*
+\* (and the zone id, opaque and local to the client, is compared case-insensitively there)
+HostForms(h) == {Lower(h), Lower(StripZone(h)), Lower(StripDots(h))}
+NamesHost(v, h) == Lower(v) \in HostForms(h)
+
+PortSuffix(sc, dp) == IF dp = DefaultPort(sc) THEN <<>> ELSE <<COLON>> \o Digits(dp)
+\* normalized path and query of the request target
+RawPath(R) == IF R.path # <<>> /\ R.path[1] # SLASH THEN <<SLASH>> \o R.path ELSE R.path   \* "http://h\x"
+WirePath2(p) == IF p = <<>> THEN <<SLASH>> ELSE p
+WirePath(R) == WirePath2(IF R.path = <<>> THEN <<>> ELSE ModelEnc(ModelRemoveDots(RawPath(R)), "path"))
+WireQuery(R) == IF R.query = NONE THEN <<>> ELSE <<QM>> \o (IF R.query = <<>> THEN <<>> ELSE ModelEnc(R.query, "query"))
+EffPort(R, sc) == IF R.port \in {NOPORT, 0} THEN DefaultPort(sc) ELSE R.port
+
+\* is the URL one whose wire image the property fixes?  (http/https, non-empty host, IDNA known)
+WireDefined(R) == IsHttp(R) /\ R.kind = "auth" /\ R.host # <<>> /\ R.port <= 65535 /\ WireHost(R.host) # NONE
+
+Wire3(R, px, P, sc, h, dp, md) ==
+  [ mode     |-> md,
+    dialhost |-> IF md = "direct" THEN Unbracket(h) ELSE Unbracket(WireHost(P.host)),
+    dialport |-> IF md = "direct" THEN dp ELSE EffPort(P, Lower(P.scheme)),
+    hosthdr  |-> StripDots(StripZone(h)) \o PortSuffix(sc, dp),
+    sni      |-> IF sc = HTTPS THEN BareHost(h) ELSE NONE,
+    connect  |-> IF md = "tunnel" THEN h \o <<COLON>> \o Digits(dp) ELSE NONE,
+    target   |-> IF md = "forward" THEN sc \o <<COLON, SLASH, SLASH>> \o h \o PortSuffix(sc, dp) \o WirePath(R) \o WireQuery(R)
+                 ELSE WirePath(R) \o WireQuery(R),
+    key      |-> <<sc, h, dp>> ]
+Wire2(R, px, P, sc) == Wire3(R, px, P, sc, WireHost(R.host), EffPort(R, sc), Mode(sc, px))
+\* P: the reading of the proxy's URL (ignored when px = "none")
+WireOf(R, px, P) == Wire2(R, px, P, Lower(R.scheme))
+
+\* "URLs that differ only in scheme/host letter case or an explicit default port"
+Equivalent(A, B) ==
+    /\ WireDefined(A) /\ WireDefined(B)
+    /\ Lower(A.scheme) = Lower(B.scheme) /\ WireHost(A.host) = WireHost(B.host)
+    /\ EffPort(A, Lower(A.scheme)) = EffPort(B, Lower(B.scheme))
+    /\ (A.port = 0) = (B.port = 0)                       \* explicit port 0 is Either: not an "explicit default port"
+    /\ A.userinfo = B.userinfo /\ A.path = B.path /\ A.query = B.query /\ A.fragment = B.fragment
+
+\* ---- the monitor.  o = one observed request:
+\*   [s, px (proxy URL or NONE), k ("sent" | exception class), dials (<<host, port>>...), req (requests
+\*    in wire order: [m, t, hosts]), snis (server_hostname of every TLS wrap), vars (variants:
+\*    [s, k, samepool, samebytes])]
+\* a value v "names host h and port dp": read with the SAME independent authority reading
+NamesHostPort3(v, h, sc, dp, p0, hp) ==
+    /\ ~hp.bad /\ NamesHost(SubSeq(v, hp.h1, hp.hend), h)
+    /\ p0 \/ IF hp.colon THEN hp.d1 <= Len(v) /\ PortVal(v, hp.d1, Len(v), 0) = dp ELSE dp = DefaultPort(sc)
+NamesHostPort(v, h, sc, dp, p0) == v # <<>> /\ ~HasAny(v, {AT}) /\ NamesHostPort3(v, h, sc, dp, p0, HostPort(v, 1, Len(v)))
+
+\* origin-form target: path up to the first '?', then the query
+PathOK(got, R) == IF AllPctValid(UTF8(R.path)) THEN got = WirePath(R)
+                  ELSE OnlyAllowed(got, "path") /\ NoDotSegments(got) /\ got # <<>> /\ got[1] = SLASH
+QueryOK(hasq, got, R) == IF R.query = NONE THEN ~hasq
+                         ELSE hasq /\ IF AllPctValid(UTF8(R.query)) THEN <<QM>> \o got = WireQuery(R)
+                                      ELSE OnlyAllowed(got, "query") /\ SameModEnc(got, R.query)
+\* F(c, name): clause c must hold; the monitor returns the SET of failing clauses (total: one broken
+\* clause - or one recorded finding - never hides another)
+F(c, name) == IF c THEN {} ELSE {name}
+OriginSet2(t, R, q) ==
+    F(PathOK(SubSeq(t, 1, q - 1), R), "Wire:Target:Path")
+    \cup F(QueryOK(q <= Len(t), SubSeq(t, q + 1, Len(t)), R), "Wire:Target:Query")
+OriginSet(t, R) ==
+    F(~HasAny(t, {HASH}), "Wire:Target:Fragment")
+    \cup F(~HasAny(t, {AT}) \/ R.userinfo = NONE \/ HasAny(R.path \o Opt(R.query), {AT}), "Wire:Target:Userinfo")
+    \cup (IF t = <<>> \/ t[1] # SLASH THEN {"Wire:Target:Form"}
+          ELSE OriginSet2(t, R, FirstIn(t, 1, Len(t), {QM, HASH})))
+\* absolute-form target (forwarding proxy): read with Ref; an empty path may stay empty (Either)
+AbsoluteSet(T, R, sc, h, dp) ==
+    F(T.fragment = NONE, "Wire:Target:Fragment")
+    \cup F(T.userinfo = NONE, "Wire:Target:Userinfo")
+    \cup (IF T.scheme # sc \/ T.kind # "auth" THEN {"Wire:Target:Form"}
+          ELSE F(NamesHost(T.host, h), "Wire:Target:Host")
+               \cup F(R.port = 0 \/ (IF T.port = NOPORT THEN dp = DefaultPort(sc) ELSE T.port = dp), "Wire:Target:Port")
+               \cup F(PathOK(T.path, R) \/ (T.path = <<>> /\ R.path = <<>>), "Wire:Target:Path")
+               \cup F(QueryOK(T.query # NONE, Opt(T.query), R), "Wire:Target:Query"))
+
+\* a variant that spells the port differently is a "default port" variant, otherwise a "case" variant
+VarKind(R, V) == IF V.colon # R.colon \/ V.digits # R.digits THEN "DefaultPort" ELSE "Case"
+VariantSet(v, R, V) ==
+    IF ~Equivalent(R, V) THEN {}
+    ELSE IF v.k # "sent" THEN {"Wire:Equivalent:Rejected:" \o VarKind(R, V)}
+    ELSE F(v.samepool, "Wire:Equivalent:SamePool:" \o VarKind(R, V))
+         \cup F(v.samebytes, "Wire:Equivalent:ByteIdentical:" \o VarKind(R, V))
+VariantsSet(o, R) == UNION {VariantSet(o.vars[i], R, Ref(o.vars[i].s)) : i \in 1..Len(o.vars)}
+
+\* q: the request that carries the caller's method (the last one; a tunnel has a CONNECT before it)
+WireSentSet(o, R, W, sc, h, dp, q) ==
+    IF Len(o.dials) # 1 THEN {"Wire:OneConnection"}
+    ELSE IF Len(o.req) # (IF W.mode = "tunnel" THEN 2 ELSE 1) THEN {"Wire:OneRequest"}
+    ELSE F(o.dials[1][1] = W.dialhost, "Wire:DialHost")
+         \cup F((W.mode = "direct" /\ R.port = 0) \/ o.dials[1][2] = W.dialport, "Wire:DialPort")
+         \cup F(W.mode # "tunnel" \/ (/\ o.req[1].m = "CONNECT" /\ HasAny(o.req[1].t, {COLON})
+                                      /\ NamesHostPort(o.req[1].t, h, sc, dp, R.port = 0)), "Wire:ConnectTarget")
+         \cup (IF Len(q.hosts) # 1 THEN {"Wire:HostHeaderCount"}
+               ELSE F(NamesHostPort(q.hosts[1], h, sc, dp, R.port = 0), "Wire:HostHeader"))
+         \cup F(o.snis = (IF sc = HTTPS THEN <<W.sni>> ELSE <<>>), "Wire:SNI")
+         \cup (IF W.mode = "forward" THEN AbsoluteSet(Ref(q.t), R, sc, h, dp) ELSE OriginSet(q.t, R))
+         \cup VariantsSet(o, R)
+WireClauses2(o, R, P) ==
+    IF o.k # "sent" THEN F(o.dials = <<>>, "Wire:RejectedButDialled")
+    ELSE IF ~WireDefined(R) THEN {"-"}                 \* outside the property's quantifier: not judged
+    ELSE IF o.req = <<>> THEN {"Wire:OneRequest"}
+    ELSE WireSentSet(o, R, WireOf(R, IF o.px = NONE THEN "none" ELSE "proxy", P), Lower(R.scheme), WireHost(R.host),
+                     EffPort(R, Lower(R.scheme)), o.req[Len(o.req)])
+WireClauses(o) == WireClauses2(o, Ref(o.s), IF o.px = NONE THEN Ref(<<>>) ELSE Ref(o.px))
+
+\* facts about the reading (for reports and for matching recorded findings on the input class)
+HostKind(h) == IF Bracketed(h) THEN (IF HasAny(h, {PCT}) THEN "ipv6zone" ELSE "ipv6")
+               ELSE IF NonAscii(h) THEN "idn"
+               ELSE IF h # <<>> /\ \A i \in 1..Len(h) : IsDigit(h[i]) \/ h[i] = DOT THEN "ipv4" ELSE "name"
+PortKind(R, sc) == IF R.port = NOPORT THEN "absent" ELSE IF R.port = 0 THEN "zero"
+                   ELSE IF R.port = DefaultPort(sc) THEN "default" ELSE "other"
+WireFacts2(R, sc, px) == [mode |-> Mode(sc, px), hostkind |-> HostKind(R.host), dot |-> R.host # <<>> /\ R.host[Len(R.host)] = DOT,
+                          port |-> PortKind(R, sc), userinfo |-> R.userinfo # NONE, fragment |-> R.fragment # NONE,
+                          query |-> R.query # NONE, emptypath |-> R.path = <<>>,
+                          zoneesc |-> Bracketed(R.host) /\ Cardinality({i \in 1..Len(R.host) : R.host[i] = PCT}) > 1,
+                          stray |-> ~AllPctValid(UTF8(R.path)) \/ ~AllPctValid(UTF8(Opt(R.query)))]
+WireFacts(R, px) == IF ~IsHttp(R) THEN [mode |-> "undefined"] ELSE WireFacts2(R, Lower(R.scheme), px)
+
+\* the observation WireOf itself describes (Model |= Rules for C15: the monitor accepts it)
+WireObs(str, pxs, W) ==
+    [s |-> str, px |-> pxs, k |-> "sent", dials |-> << <<W.dialhost, W.dialport>> >>,
+     req |-> (IF W.mode = "tunnel" THEN << [m |-> "CONNECT", t |-> W.connect, hosts |-> <<W.connect>>] >> ELSE <<>>)
+             \o << [m |-> "GET", t |-> W.target, hosts |-> <<W.hosthdr>>] >>,
+     snis |-> IF W.sni = NONE THEN <<>> ELSE <<W.sni>>, vars |-> <<>>]
 
 -----------------------------------------------------------------------------
 (* Enumeration of the input domain and the stage-1 invariants                   *)
@@ -383,6 +578,16 @@ EncoderSoundOf(str, kind, ep, em) ==
     /\ OnlyAllowed(str, kind) => em = str
 EncoderSound == \A kind \in {"userinfo", "path", "query"} :
                     EncoderSoundOf(s, kind, EncPrecise(s, kind), ModelEnc(s, kind))
+
+\* the fold used by the model (and by urllib3) is RFC 3986 5.2.4 on absolute paths, and leaves no dot segment
+\* (soft extra, not demanded by C14: where '..' climbs above the root urllib3's fold also swallows the root's
+\* own empty segment - "/..//x" gives "/x" where RFC 3986 gives "//x", "/../" gives "" where it gives "/" -
+\* the result is then the RFC's minus one leading '/'; everywhere else the two coincide)
+DotRemovalOf(p, m, r) == /\ m = r \/ <<SLASH>> \o m = r
+                         /\ NoDotSegments(m)
+                         /\ (m # <<>> /\ m[1] = SLASH) => ModelRemoveDots(m) = m
+                         /\ ~HasAny(p, {DOT}) => m = p
+DotRemovalMatchesRFC == (s # <<>> /\ s[1] = SLASH) => DotRemovalOf(s, ModelRemoveDots(s), RFCRemoveDots(s))
 
 \* Model |= Rules: the observation predicted by the model passes the monitor
 ModelSatisfiesRules == Verdict(ModelEvent(s)) = "ok"
